@@ -83,6 +83,9 @@ func coqNs(xs []uint64) string {
 func emitFlow(s ordgen.Scenario) (ok bool) {
 	res := ordgen.Run(s)
 	api := ordgen.API(s.Flow)
+	if res.ArgsChanged != "" {
+		c.Violate(api+"/changes-the-callers-utxo-objects", res.ArgsChanged, s)
+	}
 	if res.Panicked {
 		c.Violate(api+"/panic", res.PanicMsg, s)
 	}
